@@ -1,12 +1,473 @@
 package client
 
 import (
+	"bytes"
+	"context"
+	"crypto/x509"
+	_ "embed"
+	"encoding/pem"
+	"errors"
+	"fmt"
 	"testing"
+	"time"
+
+	"github.com/cenkalti/backoff/v4"
+
+	"github.com/gotd/td/bin"
+	"github.com/gotd/td/crypto"
+	"github.com/gotd/td/mtproto"
+	"github.com/gotd/td/pool"
+	"github.com/gotd/td/session"
+	"github.com/gotd/td/telegram"
+	"github.com/gotd/td/tg"
+	"github.com/gotd/td/tgerr"
+	"github.com/gotd/td/transport"
 
 	"verif/dst"
+	"verif/simrand"
 	"verif/simrt"
 )
 
+// ---- C30 ------------------------------------------------------------------------------------
+//
+// The real telegram.Client with its connection constructor replaced (overlay
+// export VerifSetConstructor): every connection the client asks for - primary,
+// same-DC pool, other DC, CDN - is a fake that owns a distinct key, permanent
+// key and salt and fires the session notification the real manager.Conn would.
+
+//go:embed testdata/cdn.pem
+var cdnPEM []byte
+
+const (
+	dcHome  = 2
+	dcOther = 4
+	dcCDN   = 203
+)
+
+type triple struct {
+	dc   int
+	key  crypto.AuthKey // the key a saved session must hold (permanent key under PFS)
+	salt int64
+	conn int
+	cdn  bool
+}
+
+type fconn struct {
+	w     *w30
+	n     int
+	spec  telegram.VerifConnSpec
+	ready chan struct{}
+	isUp  bool
+	cmd   chan string
+	key   crypto.AuthKey
+	perm  crypto.AuthKey
+	salt  int64
+	ran   bool
+	dead  bool
+}
+
+type w30 struct {
+	tape     *simrt.Tape
+	conns    []*fconn
+	triples  []triple
+	primary  map[int]bool // DCs that have been the primary DC
+	migrate  int          // >0: the primary answers the next tagged request with USER_MIGRATE_<dc>
+	pfs      bool
+	corrupt  crypto.Key // key bytes of a corrupted stored session (zero: none)
+	restored *session.Data
+}
+
+func (w *w30) freshKey() crypto.AuthKey {
+	var k crypto.Key
+	w.tape.Fill(simrt.Wl, k[:])
+	return k.WithID()
+}
+
+func (w *w30) cfg(dc int) tg.Config {
+	return tg.Config{ThisDC: dc, DCOptions: []tg.DCOption{
+		{ID: dcHome, IPAddress: "10.0.0.2", Port: 443}, {ID: dcOther, IPAddress: "10.0.0.4", Port: 443},
+		{ID: dcCDN, IPAddress: "10.0.0.203", Port: 443, CDN: true},
+	}}
+}
+
+func (f *fconn) cdn() bool { return f.spec.Mode == 2 }
+
+func (f *fconn) emit() {
+	s := mtproto.Session{ID: int64(f.n), Key: f.key, Salt: f.salt, PermKey: f.perm}
+	save := f.key
+	if !f.perm.Zero() {
+		save = f.perm
+	}
+	f.w.triples = append(f.w.triples, triple{dc: f.spec.DC, key: save, salt: f.salt, conn: f.n, cdn: f.cdn()})
+	simrt.Ev("session-notification", "conn %d dc=%d cdn=%v salt=%d key=%x", f.n, f.spec.DC, f.cdn(), f.salt, save.ID)
+	if err := f.spec.Handler.OnSession(f.w.cfg(f.spec.DC), s); err != nil {
+		simrt.Ev("session-notification-error", "conn %d: %v", f.n, err)
+	}
+}
+
+func (f *fconn) Run(ctx context.Context) error {
+	w := f.w
+	f.ran = true
+	o := f.spec.Opts
+	if w.corrupt != (crypto.Key{}) && (o.Key.Value == w.corrupt || o.PermKey.Value == w.corrupt) {
+		simrt.Violate("C30", "C30.corrupted-used", "corrupted-used", "connection %d to DC %d was started with the key of a stored session whose key id does not match its key", f.n, f.spec.DC)
+	}
+	simrt.Sleep(0, time.Duration(w.tape.Choose(simrt.Net, 4))*50*time.Millisecond)
+	if o.EnablePFS && !f.cdn() {
+		f.perm = o.PermKey
+		if f.perm.Zero() {
+			f.perm = w.freshKey()
+		}
+		f.key = w.freshKey() // temporary key
+	} else {
+		f.key = o.Key
+		if f.key.Zero() {
+			f.key = w.freshKey()
+		}
+	}
+	f.salt = o.Salt
+	if f.salt == 0 {
+		f.salt = 1000 + int64(f.n)*100
+	}
+	simrt.Ev("conn-up", "conn %d dc=%d mode=%d restored-key=%v", f.n, f.spec.DC, f.spec.Mode, !o.Key.Zero() || !o.PermKey.Zero())
+	up := func() {
+		if !f.isUp {
+			f.isUp = true
+			close(f.ready)
+		}
+	}
+	if w.tape.Coin(simrt.Sched, 1, 2) {
+		up()
+		f.emit()
+	} else {
+		f.emit()
+		up()
+	}
+	for {
+		i, rv, _ := simrt.Select(0, false, simrt.SelRecv(f.cmd), simrt.SelRecv(ctx.Done()))
+		if i == 1 {
+			f.dead = true
+			return ctx.Err()
+		}
+		switch simrt.RecvVal(f.cmd, rv) {
+		case "resalt":
+			f.salt += 1 + int64(w.tape.Choose(simrt.Wl, 5))
+			f.emit()
+		case "kill":
+			f.dead = true
+			err := errors.New("sim: connection reset")
+			if f.spec.OnDead != nil {
+				f.spec.OnDead(err)
+			}
+			return err
+		}
+	}
+}
+
+func (f *fconn) Ready() <-chan struct{} { return f.ready }
+
+func (f *fconn) Ping(ctx context.Context) error { return nil }
+
+func (f *fconn) Invoke(ctx context.Context, in bin.Encoder, out bin.Decoder) error {
+	if i, _, _ := simrt.Select(0, false, simrt.SelRecv(f.ready), simrt.SelRecv(ctx.Done())); i == 1 {
+		return ctx.Err()
+	}
+	if f.dead {
+		return pool.ErrConnDead
+	}
+	reply := func(e bin.Encoder) error {
+		var b bin.Buffer
+		if err := e.Encode(&b); err != nil {
+			return err
+		}
+		return out.Decode(&b)
+	}
+	switch r := in.(type) {
+	case tagReq:
+		if f.spec.Mode == 0 { // the primary connection (updates mode)
+			if dc := f.w.migrate; dc > 0 && f.spec.DC != dc {
+				simrt.Ev("server", "conn %d answers USER_MIGRATE_%d", f.n, dc)
+				return tgerr.New(303, fmt.Sprintf("USER_MIGRATE_%d", dc))
+			}
+		}
+		var b bin.Buffer
+		b.Put(respBody(r.tag))
+		return out.Decode(&b)
+	case *tg.AuthExportAuthorizationRequest:
+		// not logged in: the client skips the import and still returns the pool
+		return tgerr.New(401, "AUTH_KEY_UNREGISTERED")
+	case *tg.HelpGetCDNConfigRequest:
+		blk, _ := pem.Decode(cdnPEM)
+		k, err := x509.ParsePKCS1PrivateKey(blk.Bytes)
+		if err != nil {
+			panic(err)
+		}
+		pub := pem.EncodeToMemory(&pem.Block{Type: "RSA PUBLIC KEY", Bytes: x509.MarshalPKCS1PublicKey(&k.PublicKey)})
+		return reply(&tg.CDNConfig{PublicKeys: []tg.CDNPublicKey{{DCID: dcCDN, PublicKey: string(pub)}}})
+	}
+	return tgerr.New(400, "METHOD_INVALID")
+}
+
+type noResolver struct{}
+
+func (noResolver) fail() (transport.Conn, error) { return nil, errors.New("sim: no real dialing in C30") }
+
 func runC30(t *testing.T, tape *simrt.Tape, env dst.Env) *simrt.Outcome {
-	return simrt.Run(t, tape, simrt.Options{Policy: -1}, func(s *simrt.Sim) {})
+	return simrt.Run(t, tape, simrt.Options{Policy: -1}, func(s *simrt.Sim) {
+		viol := func(rule, sig, format string, args ...any) { simrt.Violate("C30", rule, sig, format, args...) }
+		w := &w30{tape: tape, primary: map[int]bool{dcHome: true}, pfs: tape.Coin(simrt.Cfg, 1, 2)}
+		st := &memStorage{}
+		ld := session.Loader{Storage: st}
+		// a stored session from an earlier life: none, sound, or corrupted
+		stored := tape.Choose(simrt.Cfg, 4)
+		var storedKey crypto.AuthKey
+		storedDC := simrt.Pick(tape, simrt.Cfg, dcHome, dcOther, 0)
+		corruptWhat := ""
+		if stored > 0 {
+			storedKey = w.freshKey()
+			d := &session.Data{DC: storedDC, AuthKey: append([]byte(nil), storedKey.Value[:]...), AuthKeyID: append([]byte(nil), storedKey.ID[:]...), Salt: 77}
+			if stored == 3 {
+				switch tape.Choose(simrt.Fault, 4) {
+				case 0:
+					d.AuthKey[tape.Choose(simrt.Fault, 256)] ^= 1 << tape.Choose(simrt.Fault, 8)
+					corruptWhat = "bit flip in the key"
+				case 1:
+					d.AuthKeyID[tape.Choose(simrt.Fault, 8)] ^= 1 << tape.Choose(simrt.Fault, 8)
+					corruptWhat = "bit flip in the key id"
+				case 2:
+					d.AuthKey = d.AuthKey[:255-tape.Choose(simrt.Fault, 200)]
+					corruptWhat = "truncated key"
+				default:
+					other := w.freshKey()
+					d.AuthKeyID = append([]byte(nil), other.ID[:]...)
+					corruptWhat = "key id of another key"
+				}
+				copy(w.corrupt[:], d.AuthKey)
+				simrt.FaultFired("stored-session-corrupted", "%s", corruptWhat)
+			}
+			if err := ld.Save(context.Background(), d); err != nil {
+				panic(err)
+			}
+			st.history = nil
+		}
+		if storedDC != 0 && stored > 0 && stored < 3 {
+			w.primary[storedDC] = true
+		}
+		st.onStore = func(b []byte) {
+			d, err := (&session.Loader{Storage: &memStorage{cur: b}}).Load(context.Background())
+			if err != nil {
+				viol("C30.unreadable", "unreadable", "the client stored a session that does not load: %v", err)
+				return
+			}
+			var k crypto.AuthKey
+			copy(k.Value[:], d.AuthKey)
+			copy(k.ID[:], d.AuthKeyID)
+			simrt.Ev("store", "dc=%d key=%x salt=%d", d.DC, d.AuthKeyID, d.Salt)
+			if len(d.AuthKey) != 256 || k.Value.ID() != k.ID {
+				viol("C30.key-id", "key-id", "stored session: key id %x does not belong to the stored key (%d bytes)", d.AuthKeyID, len(d.AuthKey))
+				return
+			}
+			ok, keyKnown, cdn, dcOfKey := false, false, false, 0
+			for _, tr := range w.triples {
+				if tr.key.Value == k.Value {
+					keyKnown, dcOfKey = true, tr.dc
+					cdn = cdn || tr.cdn
+					if tr.dc == d.DC && tr.salt == d.Salt && !tr.cdn {
+						ok = true
+					}
+				}
+			}
+			switch {
+			case !keyKnown:
+				viol("C30.unconfirmed", "unconfirmed-key", "stored session for DC %d holds key %x, which no connection ever confirmed", d.DC, d.AuthKeyID)
+			case cdn:
+				viol("C30.unconfirmed", "cdn-key", "stored session for DC %d holds the key of a CDN connection (DC %d)", d.DC, dcOfKey)
+			case !ok:
+				viol("C30.unconfirmed", "mismatched-triple", "stored session pairs DC %d, key %x and salt %d; that key was confirmed by a connection to DC %d and never with this DC and salt together", d.DC, d.AuthKeyID, d.Salt, dcOfKey)
+			case !w.primary[d.DC]:
+				viol("C30.non-primary", "non-primary", "stored session is for DC %d, which has never been the primary DC (primary so far: %v)", d.DC, keysOf(w.primary))
+			}
+		}
+		opts := telegram.Options{
+			DC: dcHome, Resolver: resolver{func(ctx context.Context, dc int) (transport.Conn, error) { return noResolver{}.fail() }}, SessionStorage: st,
+			// updates mode, so that the primary connection is recognisable (mode 0)
+			UpdateHandler: telegram.UpdateHandlerFunc(func(context.Context, tg.UpdatesClass) error { return nil }),
+			Random: simrand.New(tape), Clock: &simClock{}, EnablePFS: w.pfs, MigrationTimeout: 20 * time.Second,
+			ReconnectionBackoff: func() backoff.BackOff { return backoff.NewConstantBackOff(200 * time.Millisecond) },
+		}
+		cli := telegram.NewClient(1, "hash", opts)
+		telegram.VerifSetConstructor(cli, func(spec telegram.VerifConnSpec) pool.Conn {
+			f := &fconn{w: w, n: len(w.conns) + 1, spec: spec, ready: make(chan struct{}), cmd: make(chan string, 8)}
+			w.conns = append(w.conns, f)
+			simrt.Ev("conn-created", "conn %d dc=%d mode=%d", f.n, spec.DC, spec.Mode)
+			return f
+		})
+		ctx, cancel := context.WithCancel(context.Background())
+		defer cancel()
+		callbackRan := false
+		runDone := make(chan error, 1)
+		simrt.Go("client.Run", func() {
+			err := cli.Run(ctx, func(ctx context.Context) error {
+				callbackRan = true
+				tagN := int64(0)
+				invokeOn := func(inv tg.Invoker, what string) {
+					tagN++
+					var out tagResp
+					cctx, cc := context.WithTimeout(ctx, 30*time.Second)
+					defer cc()
+					err := inv.Invoke(cctx, tagReq{tagN}, &out)
+					simrt.Ev("invoke", "%s: err=%v", what, err)
+				}
+				live := func() []*fconn {
+					var l []*fconn
+					for _, f := range w.conns {
+						if f.isUp && !f.dead {
+							l = append(l, f)
+						}
+					}
+					return l
+				}
+				nOps := tape.Range(simrt.Wl, 2, 9)
+				done := make(chan struct{}, 16)
+				spawned := 0
+				for i := 0; i < nOps; i++ {
+					op := tape.Choose(simrt.Wl, 8)
+					run := func(name string, f func()) {
+						if tape.Coin(simrt.Sched, 1, 2) {
+							spawned++
+							simrt.Go(name, func() { f(); simrt.Send(0, done, struct{}{}) })
+						} else {
+							f()
+						}
+					}
+					switch op {
+					case 0:
+						run("other-dc", func() {
+							p, err := cli.DC(ctx, dcOther, 1)
+							if err == nil {
+								invokeOn(p, "other DC pool")
+							} else {
+								simrt.Ev("op", "DC(%d): %v", dcOther, err)
+							}
+						})
+					case 1:
+						run("same-dc-pool", func() {
+							p, err := cli.Pool(1)
+							if err == nil {
+								invokeOn(p, "same DC pool")
+							}
+						})
+					case 2:
+						run("cdn", func() {
+							p, err := cli.CDN(ctx, dcCDN, 1)
+							if err == nil {
+								invokeOn(p, "CDN pool")
+							} else {
+								simrt.Ev("op", "CDN(%d): %v", dcCDN, err)
+							}
+						})
+					case 3:
+						target := dcOther
+						if cur := lastPrimary(w); cur == dcOther {
+							target = dcHome
+						}
+						w.primary[target] = true
+						simrt.FaultFired("migration", "to DC %d", target)
+						if tape.Coin(simrt.Wl, 1, 2) {
+							run("migrate", func() {
+								cctx, cc := context.WithTimeout(ctx, 30*time.Second)
+								defer cc()
+								err := cli.MigrateTo(cctx, target)
+								simrt.Ev("op", "MigrateTo(%d): %v", target, err)
+							})
+						} else {
+							w.migrate = target
+							run("migrate-by-error", func() { invokeOn(cli, "primary (answers USER_MIGRATE)") })
+						}
+					case 4:
+						if l := live(); len(l) > 0 {
+							f := l[tape.Choose(simrt.Wl, len(l))]
+							simrt.FaultFired("conn-kill", "conn %d (dc %d mode %d)", f.n, f.spec.DC, f.spec.Mode)
+							simrt.Send(0, f.cmd, "kill")
+						}
+					case 5, 6:
+						if l := live(); len(l) > 0 {
+							f := l[tape.Choose(simrt.Wl, len(l))]
+							simrt.FaultFired("session-renotified", "conn %d (dc %d mode %d)", f.n, f.spec.DC, f.spec.Mode)
+							simrt.Send(0, f.cmd, "resalt")
+						}
+					default:
+						run("primary-invoke", func() { invokeOn(cli, "primary") })
+					}
+					simrt.Sleep(0, time.Duration(tape.Choose(simrt.Wl, 4))*100*time.Millisecond)
+				}
+				for i := 0; i < spawned; i++ {
+					simrt.Select(0, false, simrt.SelRecv(done), simrt.SelRecv(time.After(40*time.Second)))
+				}
+				simrt.Sleep(0, time.Second)
+				return nil
+			})
+			simrt.Ev("client-run-return", "err=%v", err)
+			simrt.Send(0, runDone, err)
+		})
+		var runErr error
+		if i, rv, _ := simrt.Select(0, false, simrt.SelRecv(runDone), simrt.SelRecv(time.After(10*time.Minute))); i == 0 {
+			runErr = simrt.RecvVal(runDone, rv)
+		} else {
+			panic("harness: client.Run did not return")
+		}
+		cancel()
+		// restore oracle
+		switch {
+		case stored == 3:
+			if runErr == nil || callbackRan {
+				viol("C30.corrupted-accepted", "corrupted-accepted "+corruptWhat, "a stored session with %s was not refused: Run returned %v, callback ran: %v", corruptWhat, runErr, callbackRan)
+			}
+		case stored > 0:
+			if len(w.conns) == 0 {
+				break
+			}
+			// the primary connection used after restoring must carry the stored key and DC
+			var first *fconn
+			for _, f := range w.conns {
+				if f.ran {
+					first = f
+					break
+				}
+			}
+			if first != nil {
+				got := first.spec.Opts.Key
+				if w.pfs {
+					got = first.spec.Opts.PermKey
+				}
+				wantDC := storedDC
+				if wantDC == 0 {
+					wantDC = dcHome
+				}
+				if got.Value != storedKey.Value || first.spec.DC != wantDC {
+					viol("C30.not-restored", "not-restored", "a sound stored session (DC %d, key %x) was not used: the first connection went to DC %d with key %x", storedDC, storedKey.ID, first.spec.DC, got.ID)
+				}
+			}
+		}
+		_ = bytes.Equal
+	})
+}
+
+func lastPrimary(w *w30) int {
+	for i := len(w.conns) - 1; i >= 0; i-- {
+		if w.conns[i].spec.Mode == 0 {
+			return w.conns[i].spec.DC
+		}
+	}
+	return dcHome
+}
+
+func keysOf(m map[int]bool) []int {
+	var out []int
+	for _, k := range []int{dcHome, dcOther, dcCDN, 0} {
+		if m[k] {
+			out = append(out, k)
+		}
+	}
+	return out
 }
